@@ -59,6 +59,61 @@ Definition float_result (s : list N) (p0 i : nat) : nres :=
   | BBad => mkN (-99) i 0 0
   end.
 
+(* the scanning part of vnumber_1, from the first digit on: either an early error result, or
+   (saw '.', saw exponent, end index, man, exp10, trunc) - the input contract of atof_fast / Eisel-Lemire *)
+Record scanned := mkScan { sc_dbl : bool; sc_exp : bool; sc_end : nat; sc_man : Z; sc_exp10 : Z; sc_trunc : bool }.
+
+(* `if (i < n && s[i] == '.') { i++; set_vt(V_DOUBLE); check_eof(); check_digit(); }` *)
+Definition dot_stage (l1 : list N) (i1 n : nat) : nres + (bool * nat * list N) :=
+  match l1 with
+  | d :: t => if is_dot d then
+                match t with
+                | [] => inl (mkN (- ERR_EOF) n 0 0)
+                | c1 :: _ => if is_digit c1 then inr (true, S i1, t) else inl (mkN (- ERR_INVAL) (S i1) 0 0)
+                end
+              else inr (false, i1, l1)
+  | [] => inr (false, i1, l1)
+  end.
+
+(* the exponent: i++, V_DOUBLE, check_eof, parse_sign, check_digit, digits with the 10000 cap *)
+Definition exp_stage (l5 : list N) (i5 n : nat) (e4 : Z) : nres + (bool * nat * Z) :=
+  match l5 with
+  | e :: t => if is_exp e then
+                match t with
+                | [] => inl (mkN (- ERR_EOF) n 0 0)
+                | c1 :: t1 =>
+                    let '(esm, i6, l6) := if is_sign c1 then ((if (c1 =? c_plus)%N then 1 else -1), S (S i5), t1)
+                                          else (1, S i5, t) in
+                    match l6 with
+                    | [] => inl (mkN (- ERR_EOF) n 0 0)
+                    | c2 :: _ => if is_digit c2 then
+                                   let '(i7, ex, _) := exp_digits_acc l6 i6 0 in
+                                   inr (true, i7, e4 + ex * esm)
+                                 else inl (mkN (- ERR_INVAL) i6 0 0)
+                    end
+                end
+              else inr (false, i5, e4)
+  | [] => inr (false, i5, e4)
+  end.
+
+Definition vnumber_scan (l : list N) (i0 n : nat) : nres + scanned :=
+  let '(i1, man1, nd1, e1, l1) := int_digits l i0 0 0 0 in
+  let trunc1 := 0 <? e1 in
+  match dot_stage l1 i1 n with
+  | inl r => inl r
+  | inr (isdbl, i2, l2) =>
+      (* skip the leading zeros of 0.000xxxx *)
+      let '(i3, man3, nd3, e3, l3) :=
+        if (man1 =? 0) && (e1 =? 0) then let '(iz, ez, lz) := skip_zeros l2 i2 e1 in (iz, 0, 0, ez, lz)
+        else (i2, man1, nd1, e1, l2) in
+      let '(i4, man4, nd4, e4, l4) := frac_digits l3 i3 man3 nd3 e3 in
+      let '(i5, trunc5, l5) := rest_digits l4 i4 trunc1 in
+      match exp_stage l5 i5 n e4 with
+      | inl r => inl r
+      | inr (hasexp, i8, e8) => inr (mkScan isdbl hasexp i8 man4 e8 trunc5)
+      end
+  end.
+
 Definition vnumber (s : list N) (oob : N) (p0 : nat) : nres :=
   let n := length s in
   if (n <=? p0)%nat then mkN (- ERR_EOF) n 0 0 else
@@ -69,55 +124,17 @@ Definition vnumber (s : list N) (oob : N) (p0 : nat) : nres :=
   let c := nth i0 s 0%N in
   if negb (is_digit c) then mkN (- ERR_INVAL) i0 0 0 else
   if (c =? c_0)%N && negb (is_dot_or_exp (byte_at s oob (S i0))) then mkN V_INTEGER (S i0) 0 0 else
-  let '(i1, man1, nd1, e1, l1) := int_digits (skipn i0 s) i0 0 0 0 in
-  let trunc1 := 0 <? e1 in
-  (* decimal point *)
-  match (match l1 with
-         | d :: t => if is_dot d then
-                       match t with
-                       | [] => inl (mkN (- ERR_EOF) n 0 0)
-                       | c1 :: _ => if is_digit c1 then inr (true, S i1, t) else inl (mkN (- ERR_INVAL) (S i1) 0 0)
-                       end
-                     else inr (false, i1, l1)
-         | [] => inr (false, i1, l1)
-         end) with
+  match vnumber_scan (skipn i0 s) i0 n with
   | inl r => r
-  | inr (isdbl, i2, l2) =>
-      let '(i3, man3, nd3, e3, l3) :=
-        if (man1 =? 0) && (e1 =? 0) then let '(iz, ez, lz) := skip_zeros l2 i2 e1 in (iz, 0, 0, ez, lz)
-        else (i2, man1, nd1, e1, l2) in
-      let '(i4, man4, nd4, e4, l4) := frac_digits l3 i3 man3 nd3 e3 in
-      let '(i5, trunc5, l5) := rest_digits l4 i4 trunc1 in
-      match (match l5 with
-             | e :: t => if is_exp e then
-                           (* i++, V_DOUBLE, check_eof, parse_sign, check_digit *)
-                           match t with
-                           | [] => inl (mkN (- ERR_EOF) n 0 0)
-                           | c1 :: t1 =>
-                               let '(esm, i6, l6) := if is_sign c1 then ((if (c1 =? c_plus)%N then 1 else -1), S (S i5), t1)
-                                                     else (1, S i5, t) in
-                               match l6 with
-                               | [] => inl (mkN (- ERR_EOF) n 0 0)
-                               | c2 :: _ => if is_digit c2 then
-                                              let '(i7, ex, _) := exp_digits_acc l6 i6 0 in
-                                              inr (true, i7, e4 + ex * esm)
-                                            else inl (mkN (- ERR_INVAL) i6 0 0)
-                               end
-                           end
-                         else inr (false, i5, e4)
-             | [] => inr (false, i5, e4)
-             end) with
-      | inl r => r
-      | inr (hasexp, i8, e8) =>
-          if negb isdbl && negb hasexp && negb (is_overflow man4 sgn e8) then
-            (* V_INTEGER: iv = (int64)man * sgn, dv = (double)man with the sign bit *)
-            let iv := if neg then - man4 else man4 in
-            let dv := match rne_frac f64 man4 1 with
-                      | RFin k => match bits_checked f64 k with
-                                  | Some b => b + (if neg then sign_bit f64 else 0)
-                                  | None => -1 end
-                      | _ => -1 end in
-            mkN V_INTEGER i8 iv dv
-          else float_result s p0 i8
-      end
+  | inr sc =>
+      if negb (sc_dbl sc) && negb (sc_exp sc) && negb (is_overflow (sc_man sc) sgn (sc_exp10 sc)) then
+        (* V_INTEGER: iv = (int64)man * sgn, dv = (double)man with the sign bit *)
+        let iv := if neg then - sc_man sc else sc_man sc in
+        let dv := match rne_frac f64 (sc_man sc) 1 with
+                  | RFin k => match bits_checked f64 k with
+                              | Some b => b + (if neg then sign_bit f64 else 0)
+                              | None => -1 end
+                  | _ => -1 end in
+        mkN V_INTEGER (sc_end sc) iv dv
+      else float_result s p0 (sc_end sc)
   end.
